@@ -108,7 +108,10 @@ OPTIONS = ("argument('name', default='d')\n"
            "argument('bar', action='with')\n"
            "argument('num', default='0')\n"
            "argument('x11', action='with')\n"
-           "argument('xml', action='enable')\n")
+           "argument('xml', action='enable')\n"
+           # declarations with two names (the second is an alias)
+           "argument('jobs', 'parallel', default='1')\n"
+           "argument('docs', 'manual', action='enable')\n")
 
 
 def cmdline(case, plain):
@@ -129,6 +132,14 @@ def cmdline(case, plain):
         out.append('%s%s-x11' % (pre(4), ['', 'with', 'without'][vals[4]]))
     if vals[5]:
         out.append('%s%s-xml' % (pre(5), ['', 'enable', 'disable'][vals[5]]))
+    # the two-name declarations: primary name or alias, derived from the
+    # generated values (spelling as for the third / fourth argument)
+    v6, v7 = (vals[0] + vals[1]) % 3, (vals[2] + vals[3]) % 3
+    if v6:
+        out.append('%s%s=4' % (pre(2), ['', 'jobs', 'parallel'][v6]))
+    if v7:
+        out.append('%s%s' % (pre(3), ['', 'enable-docs',
+                                      'disable-manual'][v7]))
     return out
 
 
